@@ -34,6 +34,7 @@ type xcase struct {
 	Segment    int // max bytes per Read on the transport (0 = unlimited)
 	Perturb    []perturb
 	HashAlg    string
+	SlotFrac   float64 // --small-slot-frac (0 = the tool's default)
 }
 
 type perturb struct {
@@ -48,7 +49,7 @@ var perturbSites = []string{"send.chunk.before", "send.fileend.before", "send.re
 
 func (x xcase) String() string {
 	return fmt.Sprintf("chunk=%d hash=%q streams=%d conns=%d resume(s=%v,r=%v) noroot=%v mode=%s legacy=%v quicvis=%v window=%d segment=%d perturb=%v tree=%s",
-		x.Chunk, x.HashAlg, x.Streams, x.Conns, x.SendResume, x.RecvResume, x.NoRootDir, x.Mode, x.Legacy, x.QUICVis, x.Window, x.Segment, x.Perturb, x.Tree.Describe())
+		x.Chunk, x.HashAlg, x.Streams, x.Conns, x.SendResume, x.RecvResume, x.NoRootDir, x.Mode, x.Legacy, x.QUICVis, x.Window, x.Segment, x.Perturb, x.Tree.Describe()) + slotFracNote(x.SlotFrac)
 }
 
 func (x xcase) fingerprint() string {
@@ -186,6 +187,7 @@ func (p *prepared) sendOpts() transfer.Options {
 	chunk := uint32(p.x.Chunk)
 	return transfer.Options{
 		ChunkSize: chunk, ParallelFiles: total, StripeMax: p.x.Conns, Resume: p.x.SendResume, ResolveFilePath: p.resolve, HashAlg: p.x.HashAlg,
+		SmallSlotFrac: p.x.SlotFrac,
 		ParamSource: func() transfer.RuntimeParams { return transfer.RuntimeParams{ChunkSize: chunk, ParallelFiles: total} },
 	}
 }
@@ -292,4 +294,11 @@ func frac(t *rapid.T, label string) float64 {
 	v = (v ^ (v >> 27)) * 0x94D049BB133111EB
 	v ^= v >> 31
 	return float64(v>>11) / float64(1<<53)
+}
+
+func slotFracNote(f float64) string {
+	if f == 0 {
+		return ""
+	}
+	return fmt.Sprintf(" small-slot-frac=%v", f)
 }
